@@ -16,6 +16,8 @@ fn main() {
         ("c11", "record") => yv::c11::record(&args),
         ("c09", "record") => yv::c09::record(&args),
         ("c10", "record") => yv::c10::record(&args),
+        ("c20", "record") => yv::c20::record(&args),
+        ("c20", "replay") => yv::c20::replay(&args),
         _ => { eprintln!("unknown command {:?}", &a[..2]); std::process::exit(2); }
     }
 }
